@@ -83,7 +83,11 @@ def runCase (s : St) : String :=
         if !(impl.all fun x => model.contains x) then
           let bad := impl.filter fun x => !model.contains x
           let partialB := bad.all fun x => model.any fun y => y.1 == x.1 && subBag x.2 y.2
-          let kind := if partialB then "unsound-partial-binding" else "unsound"
+          let wildKids := (s.query.splitOn "(_ ").length > 1
+          let kind := if partialB then "unsound-partial-binding"
+            else if wildKids && ((s.query.splitOn "!").length > 1 || s.hasError) then "unsound-wildroot-test-skipped"
+            else if quant && (s.query.splitOn " .)").length > 1 then "unsound-quantified-trailing-anchor"
+            else "unsound"
           s!"{s.id} judge=FAIL {kind} first={repr bad.head!} {info}"
         else if !quant && !soundB impl model then
           let bad := impl.filter fun x => countOf x impl > countOf x model
@@ -91,7 +95,7 @@ def runCase (s : St) : String :=
         else if !quant && !completeB impl model then
           let bad := model.filter fun x => countOf x model > countOf x impl
           let subsumed := bad.all fun x => impl.any fun y => y.1 == x.1 && y != x && subBag x.2 y.2
-          let kind := if subsumed then "incomplete-subsumed" else if anchorAfterUncaptured s.query then "incomplete-anchor-uncaptured" else "incomplete"
+          let kind := if subsumed then "incomplete-subsumed" else if (s.query.splitOn "(MISSING").length > 1 then "incomplete-missing-uncaptured" else if (s.query.splitOn "(ERROR ").length > 1 then "incomplete-error-children-uncaptured" else if anchorAfterUncaptured s.query then "incomplete-anchor-uncaptured" else "incomplete"
           s!"{s.id} judge=FAIL {kind} first={repr bad.head!} {info}"
         else s!"{s.id} judge=ok {info}"
       | _ =>
